@@ -1113,6 +1113,45 @@ example :
 
 end pool
 
+section pooldrained
+open Hive.Events Hive.EventsPool
+
+/-- **C15, pooled hooks, composed with the pool model.**  The hypothesis of `C15_pooled_exactly_once` ("the pools run every
+submitted task exactly once") discharged for the pool model: `Trigger(e, a)` submits its pooled invocations (task `i` =
+the `i`-th pooled entry of its log) to a pool with any number of workers, any interleaving; once the trigger has returned
+and the pending-tasks counter is 0 (the pool has drained), every pooled invocation of the trigger has been executed
+exactly once and nothing else has. -/
+theorem C15_pooled_exactly_once_drained (pre : List Op) (e a : Nat) (hnl : noLink pre)
+    (he : e < (final init pre).evs.length) (cs : List Call)
+    (hcs : (step (final init pre) (.trigger e a)).2 = .calls cs)
+    (ws ts' : List Th) (hws : ∀ t ∈ ws, t = Th.idle) (s : Sh)
+    (hr : Reach EventsPool.sys (EventsPool.init, Th.sub (List.range (cs.filter (·.pooled)).length) :: ws) (s, ts'))
+    (hdrained : s.pending = 0) (hret : ∀ l, Th.sub l ∈ ts' → l = []) :
+    let executed := s.executed.filterMap (fun i => (cs.filter (·.pooled))[i]?)
+    (∀ c ∈ cs, c.kind = .call → c.pooled = true → executed.count c = 1) ∧
+    (∀ c ∈ executed, c ∈ cs ∧ c.pooled = true) := by
+  intro executed
+  have hts : ∀ t ∈ Th.sub (List.range (cs.filter (·.pooled)).length) :: ws, t.initial = true := by
+    intro t ht
+    rcases List.mem_cons.mp ht with rfl | ht
+    · rfl
+    · rw [hws t ht]; rfl
+  have hcount := (C15_pooled_drained _ ts' s hts hr).2.2 hdrained hret
+  have hperm : s.executed.Perm (List.range (cs.filter (·.pooled)).length) := by
+    apply List.perm_iff_count.mpr
+    intro t
+    rw [hcount t]
+    have hz : sumOf (todo t) ws = 0 := sumOf_zero (fun th hth => by rw [hws th hth]; rfl)
+    simp only [sumOf, List.map_cons, List.sum_cons] at hz ⊢
+    simp only [todo]
+    omega
+  have hcons : executed.Perm (cs.filter (·.pooled)) := by
+    have := hperm.filterMap (fun i => (cs.filter (·.pooled))[i]?)
+    rw [range_filterMap_getElem?] at this
+    exact this
+  exact C15_pooled_exactly_once pre e a hnl he cs executed hcs hcons
+end pooldrained
+
 /-! ## the ordered map as `Hook` / `Unhook` use it refines the abstract registry (one simulation) -/
 section regsim
 open Hive.EventsRegSim Hive.EventsOMap
